@@ -11,13 +11,13 @@ from specs.stencil import spec_1d
 from specs.topology import ROT, Decomp, expressible_orientations, neg, sgn
 
 ID = "C04"
-FUNCTIONS = ["xgcm.padding:_pad_face_connections", "xgcm.padding:_maybe_rename_grid_positions",
+FUNCTIONS = ["xgcm.grid:Grid._apply_vector_function", "xgcm.padding:_pad_face_connections", "xgcm.padding:_maybe_rename_grid_positions",
              "xgcm.padding:_maybe_swap_dimension_names", "xgcm.padding:pad", "xgcm.grid:Grid._1d_grid_ufunc_dispatch",
              "xgcm.grid_ufunc:apply_as_grid_ufunc", "xgcm.grid_ufunc:_pad_then_rechunk", "xgcm.grid_ufunc:_check_data_input",
              "xgcm.grid_ufunc:_maybe_unpack_vector_component"]
 BOUNDS = {
     "quick": {"decompositions": "(2,1),(1,2),(2,2),(3,1),(1,3): every assignment of the 4 rotations per face whose junctions are all non-reversed links; open (fill 0) and periodic domain; plus the grid without face connections",
-              "N": [2], "operators": ["diff", "interp"], "components": ["X", "Y"], "extra dims": ["none", "t before face"]},
+              "N": [2], "operators": ["diff", "interp", "diff_2d_vector", "interp_2d_vector"], "components": ["X", "Y"], "extra dims": ["none", "t before face"]},
     "thorough": {"decompositions": "+ (3,2),(2,3)", "N": [2, 3]},
 }
 OUTSIDE = ["reversed links for vectors (excluded by the statement)", "non-centre targets", "open edges under a rule other than fill 0 when a face is rotated", "float rounding", "vector components of different dtypes (seed C04-d)"]
@@ -147,6 +147,16 @@ def case(W, cfg):
         W.equal("%s:X-component" % op, ru, wu)
         W.equal("%s:Y-component" % op, rv, wv)
         res[op] = (ru, rv)
+        # the (deprecated, still public) 2-D vector spelling is the same pair of calls
+        with warnings.catch_warnings():
+            warnings.simplefilter("ignore")
+            r2 = getattr(grid, op + "_2d_vector")({"X": uda, "Y": vda}, to="center")
+        W.require("2d_vector-keys:%s" % op, isinstance(r2, dict) and list(r2) == ["X", "Y"], str(type(r2)))
+        for comp, want2 in (("X", wu), ("Y", wv)):
+            r2c = r2[comp]
+            W.require("2d_vector-dims:%s:%s" % (op, comp), tuple(r2c.dims) == tuple(canon), str(r2c.dims))
+            r2d = r2c.transpose(*canon).data
+            W.equal("2d_vector:%s:%s" % (op, comp), r2d[None] if nt == 1 else r2d, want2, record=False)
     # consequence: discrete divergence equals that of the undivided field
     ru, rv = res["diff"]
     div_got, div_want = [], []
